@@ -37,6 +37,7 @@ THEOREMS = [
     "Measured.mulUnit_size", "Measured.divUnit_size", "Measured.powUnit_size",
     "Measured.C06.add_direct_exact", "Measured.C06.sub_direct_exact",
     "Measured.eqCore_direct_iff", "Measured.ltCore_direct_iff",
+    "Measured.C06.add_simple", "Measured.C06.sub_simple", "Measured.eqCore_simple_iff", "Measured.ltCore_simple_iff",
 ]
 LEAN_TARGETS = ["Props.C06", "Props.C12Direct", "Obligations.C02"]
 QUICK = {"chunks": 4, "ops": 1500}
